@@ -78,7 +78,9 @@ mut("c07_knight_offset", "src/chess/movegen/tables/attacks.rs", "    attacks |= 
 PE = "src/engine/eval/player_eval.rs"
 NM = "src/engine/search/negamax.rs"
 mut("c08_mate_distance_off_by_one", PE, "return Some((Self::MATE - self.0 + 1) / 2);", "return Some((Self::MATE - self.0) / 2);", ["C08"])
-mut("c08_tt_store_without_mate_adjust", NM, "eval: best_eval.with_mate_distance_from_position(plies),", "eval: best_eval,", ["C08"], [])
+# search-quality bug only: cut-offs at non-PV nodes use wrong mate distances, but every reported line is still
+# re-searched exactly at PV nodes, so the statement of C08 (line matches the announcement) keeps holding
+mut("c08_tt_store_without_mate_adjust", NM, "eval: best_eval.with_mate_distance_from_position(plies),", "eval: best_eval,", [], ["C08"])
 mut("c08_tt_cutoff_in_pv_nodes", NM, "if !is_root && !is_pv && tt_entry.depth >= depth {", "if !is_root && tt_entry.depth >= depth {", ["C08"])
 mut("c08_node_pv_not_cleared", NM, "    while let Some(mv) = moves.next(game, ctx, plies) {\n        node_pv.clear();\n", "    while let Some(mv) = moves.next(game, ctx, plies) {\n", ["C08"])
 mut("c08_depth_report_skips", "src/engine/search/iterative_deepening.rs", "                depth,\n                seldepth: ctx.max_depth_reached,", "                depth: if depth == 3 { 4 } else { depth },\n                seldepth: ctx.max_depth_reached,", ["C08"])
@@ -102,7 +104,8 @@ mut("c11_three_men_always_dead", GM, "            3 => (self.board.all_knights()
 ST = "src/engine/search/tables.rs"
 SM = "src/engine/search/mod.rs"
 mut("c12_history_reset_noop", SM, "        self.tt.reset();\n        self.history_table.reset();", "        self.tt.reset();", ["C12"])
-mut("c12_reset_leaves_generation", "src/engine/transposition_table.rs", "        self.generation = 0;\n        self.occupied = 0;\n    }\n\n    pub fn resize", "        self.occupied = 0;\n    }\n\n    pub fn resize", ["C12", "C19"])
+# equivalent: ages are only compared for equality with the current generation, which restarts relative to itself
+mut("c12_reset_leaves_generation", "src/engine/transposition_table.rs", "        self.generation = 0;\n        self.occupied = 0;\n    }\n\n    pub fn resize", "        self.occupied = 0;\n    }\n\n    pub fn resize", [], ["C12", "C19"])
 mut("c12_reset_leaves_last_slot", "src/engine/transposition_table.rs", "        for i in 0..self.data.len() {\n            self.data[i] = None;\n        }", "        for i in 0..self.data.len() - 1 {\n            self.data[i] = None;\n        }", ["C19"], [])
 
 mut("c13_revert_d4", "src/engine/transposition_table.rs", "calculate_number_of_entries::<T>(size_mb).max(1);", "calculate_number_of_entries::<T>(size_mb);", ["C13", "C19"])
